@@ -434,6 +434,17 @@ def run(ctx):
                       "recognise); first: class %s, harness expected %d, text %r" % (len(bad), len(stored), cls, stored[bad[0]][1], stored[bad[0]][0]))
             ctx.extra.setdefault("disagreements", {})["stored_normal"] = [repr(stored[b])[:600] for b in bad[:3]]
         ctx.obligation("correspondence:stored_normal", not bad, detail)
+    # the witnesses of Proofs/C14Compose.v (non-vacuity; the two counterexamples to the unconditional statement), stored three
+    # times by the real pipeline, byte-exact against the model at each step -- the Examples are about real behaviour
+    wit = []
+    for t in COMPOSE_WITNESSES:
+        for _ in range(3):
+            o = real_put_pipeline(ritem, t, "VCALENDAR")
+            wit.append((t, o))
+            if o is None:
+                break
+            t = o
+    corr(ctx, "compose_witnesses", "put_model", wit, enc_str, enc_opt(enc_str), "eq_os")
     ctx.samples += [dict(upload=t[:400], stored=(o or "")[:400]) for t, o in put_cases[:2]]
     for k, v in list(g.features.items()) + list(gc.features.items()):
         ctx.count("grammar:" + k, v)
@@ -441,6 +452,23 @@ def run(ctx):
     # ------------------------------------------------------------ server-level monitors + export / split correspondence
     from checks import C14_server
     C14_server.run_server_part(ctx, HEADER, corr)
+
+
+def _mk(*ls):
+    return "".join(l + "\r\n" for l in ls)
+
+
+# ComposeExamples.busy / trailing / empty_param of coq/Proofs/C14Compose.v
+COMPOSE_WITNESSES = [
+    _mk("BEGIN:VCALENDAR", "PRODID:-//x//EN", "VERSION:2.0", "BEGIN:VEVENT", "SUMMARY:a,b;c", "DTSTART;VALUE=DATE:20200102", "UID:u1",
+        "DTSTAMP:20200101T000000Z", "EXDATE;X-A=1:20200103T100000Z", "DTEND;VALUE=DATE:20200103", "DURATION:PT0S", "CATEGORIES:a,b",
+        'ATTENDEE;ROLE=CHAIR;CN="Doe, J":mailto:x@y', "BEGIN:VALARM", "TRIGGER:-PT5M", "ACTION:DISPLAY", "END:VALARM", "END:VEVENT",
+        "END:VCALENDAR"),
+    _mk("BEGIN:VCALENDAR", "VERSION:2.0", "PRODID:-//x//EN", "BEGIN:VEVENT", "UID:u1", "DTSTAMP:20200101T000000Z",
+        "DTSTART:20200102T100000Z", "SUMMARY:s", "CATEGORIES:a,,", "END:VEVENT", "END:VCALENDAR"),
+    _mk("BEGIN:VCALENDAR", "VERSION:2.0", "PRODID:-//x//EN", "BEGIN:VEVENT", "UID:u1", "DTSTAMP:20200101T000000Z",
+        "DTSTART:20200102T100000Z", 'ATTENDEE;CN="":mailto:x@y', "END:VEVENT", "END:VCALENDAR"),
+]
 
 
 CLEANUP_CORPUS = [
